@@ -315,14 +315,21 @@ def run(ctx):
     singles = single_option_configs(unc, ctx.rng, 260 if quick else None)
     randoms = [("rand%d" % k, cfggen.random_any_config(ctx.rng, unc)) for k in range(40 if quick else 600)]
     jobs = []
+    nth = {"expr": 0, "tree": 0}
+    count = {k: max(1, sum(1 for x in progs if x[2] == k)) for k in ("expr", "tree")}
     for p, lang, kind in progs:
         cfgs = list(core)
         if kind == "prog":
             cfgs += singles + randoms
-        elif kind == "expr":
-            cfgs += [c for c in singles if c[0].startswith("sp_")][:30 if quick else 10000] + randoms[:6 if quick else 60]
         else:
-            cfgs += [c for c in singles if c[0].startswith(("mod_", "nl_"))][:10 if quick else 10000] + randoms[:4 if quick else 40]
+            mine = [c for c in singles if c[0].startswith("sp_" if kind == "expr" else ("mod_", "nl_"))]
+            if quick:
+                cfgs += mine[:30 if kind == "expr" else 10] + randoms[:6 if kind == "expr" else 4]
+            else:
+                # every single-option configuration meets 8 generated programs of the kind (dealt round-robin), seeded draws meet all
+                k_, n_ = nth[kind], count[kind]
+                cfgs += [c for j, c in enumerate(mine) if (j - k_) % n_ < 8 or n_ <= 8] + randoms[:40]
+                nth[kind] += 1
         for (cn, ct) in cfgs:
             jobs.append((unc, tmp, len(jobs), p, lang, base[p], cn, ct))
     res = pmap_proc(_job, jobs, nproc=14)
@@ -341,12 +348,16 @@ def run(ctx):
             ctx.error("MeaningTrace: trace not consumed to the end")
         ctx.cov["traces_validated_against_impl"] = len(evs)
         byid = {e["id"]: (e, m) for e, m in res}
+        mincache = {}
         for rep in rt.emitted:
             e, (src, lang, cn, ct) = byid[rep["id"]]
             for b in rep["bad"]:
                 # the signature names the smallest part of the configuration that still produces this failure on this program
-                mins = minimise(unc, tmp, src, lang, e["m1"], ct, b)
                 kind = os.path.basename(src).rstrip("0123456789").split(".")[0].rstrip("0123456789")
+                ck = (b, kind, lang, cn)
+                if ck not in mincache:
+                    mincache[ck] = minimise(unc, tmp, src, lang, e["m1"], ct, b)
+                mins = mincache[ck]
                 sig = "%s|%s%s|%s" % (b, kind, EXT[lang], ";".join(mins))
                 ctx.violation(sig, "%s violated: %s formatted with %s: exit %d, compile of output %d, object code %s -> %s" % (
                     b, os.path.basename(src), cn, e["status"], e["c2"], e["m1"], e["m2"]),
